@@ -115,8 +115,25 @@ fn gen_hs(run: &mut Run, prop: &str, seed: u64, thorough: bool) {
         for (pi, p) in pats.iter().enumerate() {
             let i = pi + rep * 41 + (seed as usize % 7);
             let nm = inst_of(p, &[]).map_or(1, |x| x.msgs.len());
-            for real in [false, true] {
+            for (real, pskset) in {
+                // fault-oriented properties: with the toy suite every single psk position of the pattern
+                // (a stale key or a misplaced token shows only for particular placements); otherwise the
+                // rotating choice of `base_cfg`
+                let mut v: Vec<(bool, Option<Vec<u8>>)> = vec![(true, None)];
+                if matches!(prop, "C07" | "C06" | "C03" | "C19" | "C14" | "C10") && rep == 0 {
+                    v.push((false, Some(vec![])));
+                    for n in 0..=(nm as u8) {
+                        v.push((false, Some(vec![n])));
+                    }
+                } else {
+                    v.push((false, None));
+                }
+                v
+            } {
                 let mut cfg = base_cfg(p, i, r.next(), real);
+                if let Some(ps) = pskset {
+                    cfg.psks = ps;
+                }
                 let inst = inst_of(p, &cfg.psks).unwrap();
                 let lay = layout(&inst, !cfg.psks.is_empty());
                 match prop {
